@@ -541,7 +541,7 @@ func Concretise(files *protoregistry.Files, sh *Shape, sym AReq) (AReq, Concrete
 		case "good", "pct", "repeated":
 			txt = sampleText(fdef.Kind, "U")
 			if u.Cls == "pct" && fdef.Kind == "string" {
-				txt = "a b/c?d&e=f%+"
+				txt = "a b/c?d&e=f%+,g;h"
 			}
 		case "zero":
 			txt = zeroText(fdef.Kind)
@@ -680,7 +680,7 @@ func urlWire(kind, cls, loc string) (string, bool) {
 		return esc(sampleText(kind, "U")), true
 	case "pct":
 		if kind == "string" {
-			return pctAll("a b/c?d&e=f%+"), true
+			return pctAll("a b/c?d&e=f%+,g;h"), true
 		}
 		return pctAll(sampleText(kind, "U")), true
 	case "zero":
